@@ -274,6 +274,10 @@ func (fr *Frame) safetyNamed(st *State, kind string, cond *Term, pos token.Pos, 
 func (fr *Frame) newRef(st *State, prefix string) *Term {
 	ex := fr.ex
 	r := ex.ctx.Fresh(prefix, SRef)
+	if ex.freshRefs == nil {
+		ex.freshRefs = map[string]int{}
+	}
+	ex.freshRefs[r.Op] = ex.ctx.n
 	al := ex.get(st, "Alloc", ArraySort(SRef, SBool))
 	ex.assume(st, And(Neq(r, TNull), Not(Select(al, r))))
 	ex.set(st, "Alloc", Store(al, r, TTrue))
